@@ -1,17 +1,18 @@
-import Log4rsModel.EnvExpand.LemmasSpec
+import Log4rsModel.EnvExpand.LemmasSites
 /-
 C19 — `$ENV{NAME}` path expansion substitutes set variables, leaves all else intact.
 Only property theorems and non-vacuity examples live here; helpers are in EnvExpand/Lemmas*.lean.
+Every `C19_*` theorem is about the CURRENT code (`expand`, the call-site model) or the current
+specification; theorems about the code before the fix of finding F7 are named `Hist_C19_*`.
 
-`expand`          = model of the code (`env_util::expand_env_vars`: one pass, byte offsets, partial slices)
+`expand`          = model of `env_util::expand_env_vars` (one pass, byte offsets, partial slices)
 `specExpand`      = the statement: one left-to-right pass on characters
-`location`        = model of the call sites (builders, configuration deserializers, `rotate()`)
-`rollingTrace`    = every use of its location by a rolling appender over a history of appends
-`expandOs`        = `expand` in a process whose environment block (byte strings) is `os`
-`expand_unfixed`  = the historical code (replace-all on the accumulating output, finding F7), kept
-                    with its witness and its partial theorem
-`alnum`           = `char::is_alphanumeric` (Unicode table, a parameter); only the historical
-                    theorems use facts about it (`$` and `}` are not alphanumeric).
+`fileBuildFs`, `rollingBuildFs`, `rollingHistoryFs`, `rollFs` = model of the call sites, code-shaped:
+                    argument, expanded local, stored field and descriptor are separate variables,
+                    on a file system with directories (EnvExpand/CallSites.lean)
+`specFileBuild`, `specRollingHistory`, `specRoll` = the statement's third clause: everything at `loc`
+`expandOs`, `osVar` = the expansion / `std::env::var` in a process with environment block `os`
+`alnum`           = `char::is_alphanumeric` (Unicode table, a parameter)
 -/
 namespace Log4rs.EnvExpand
 open Log4rs Log4rs.Str
@@ -26,7 +27,10 @@ within the path and `path[m..match_end]` is exactly `$ENV{name}`.
 (2) After any number of loop iterations the loop is in an `ok` state (none of the partial
 `split_at` / `&path[copied..match_start]` was off a boundary) and the cursor `copied` is a character
 boundary within the path — so the final `&path[copied..]` is in bounds as well.
-(3) Hence no panic branch is ever taken. Holds for every `alnum`, i.e. for multi-byte names too. -/
+(3) Hence no panic branch is ever taken. Holds for every `alnum`, i.e. for multi-byte names too.
+The slices are the only panic sources of the function: `std::env::var` returns `Err` (never
+panics) for every name, also an empty one or one with `=` / NUL (the harness asserts this of the
+real std at start-up), so `lookup` as a total function loses nothing. -/
 theorem C19_never_panics (alnum : Char → Bool) (env : Env) (path : Text) :
     (∀ m ∈ matchIndices envPrefix path,
       IsCharBoundary path m ∧ IsCharBoundary path (m + ENV_PREFIX_LEN) ∧
@@ -88,6 +92,77 @@ theorem C19_unset_and_malformed_untouched (alnum : Char → Bool) (env : Env) (p
     expand alnum env path = .ok path := by
   rw [expand_eq_spec, specExpand, specGo_untouched alnum env path h path [] rfl]
 
+/-- The decomposition of `C19_other_text_untouched` is the only one: any split of the path into
+literal characters and references that satisfies `Complete` (replaced references are well formed
+and set, no literal character starts such a reference) is `parse path`. Needs only that `}` is not
+a name character. -/
+theorem C19_decomposition_unique (alnum : Char → Bool) (env : Env) (hc : alnum '}' = false)
+    (path : Text) (segs : List Seg) (ho : origRender segs = path) (hcomp : Complete alnum env segs) :
+    segs = parse alnum env path := by
+  rw [← ho, parse_unique hc segs hcomp]
+
+/-! ### Per occurrence (no decomposition involved)
+
+`$` is not a name character (`hd`); for the two theorems that speak of a well-formed NAME also `}`
+is not (`hc`). Both hold of `char::is_alphanumeric`. -/
+
+/-- A `$` is a cut point: what precedes it is expanded on its own. -/
+theorem C19_dollar_is_cut_point (alnum : Char → Bool) (env : Env) (hd : alnum '$' = false) (a y : Text) :
+    expand alnum env (a ++ '$' :: y) =
+      .ok (specExpand alnum env a ++ specExpand alnum env ('$' :: y)) := by
+  rw [expand_eq_spec, specExpand_cut_dollar hd]
+
+/-- Literal text without `$` is copied, character by character. -/
+theorem C19_literal_text_kept (alnum : Char → Bool) (env : Env) (t r : Text) (ht : '$' ∉ t) :
+    expand alnum env (t ++ r) = .ok (t ++ specExpand alnum env r) := by
+  rw [expand_eq_spec, specExpand_no_dollar_prefix alnum env t r ht]
+
+/-- EVERY occurrence of a well-formed reference to a set variable — wherever it stands, whatever
+precedes and follows — is replaced by the variable's value, and the text before and after it is
+expanded independently. -/
+theorem C19_set_reference_replaced (alnum : Char → Bool) (env : Env)
+    (hd : alnum '$' = false) (hc : alnum '}' = false)
+    (n v : Text) (hn : WfName alnum n) (hl : lookup env n = some v) (a r : Text) :
+    expand alnum env (a ++ refLit n ++ r) =
+      .ok (specExpand alnum env a ++ v ++ specExpand alnum env r) := by
+  have h1 : a ++ refLit n ++ r = a ++ '$' :: ((refLit n).tail ++ r) := by simp [refLit_eq]
+  have h2 : '$' :: ((refLit n).tail ++ r) = refLit n ++ r := by simp [refLit_eq]
+  have hstep : specExpand alnum env (refLit n ++ r) = v ++ specExpand alnum env r :=
+    specGo_at_ref (substAt_of_refLit hd hc hn hl)
+  rw [expand_eq_spec, h1, specExpand_cut_dollar hd, h2, hstep, List.append_assoc]
+
+/-- EVERY occurrence of a well-formed reference to an UNSET variable stays as written. -/
+theorem C19_unset_reference_kept (alnum : Char → Bool) (env : Env)
+    (hd : alnum '$' = false) (hc : alnum '}' = false)
+    (n : Text) (hn : WfName alnum n) (hl : lookup env n = none) (a r : Text) :
+    expand alnum env (a ++ refLit n ++ r) =
+      .ok (specExpand alnum env a ++ refLit n ++ specExpand alnum env r) := by
+  have h1 : a ++ refLit n ++ r = a ++ '$' :: ((refLit n).tail ++ r) := by simp [refLit_eq]
+  have h2 : '$' :: ((refLit n).tail ++ r) = envPrefix ++ (n ++ envSuffix :: r) := by simp [refLit_eq, envPrefix, envBody]
+  have hsub : substAt alnum env (envPrefix ++ (n ++ envSuffix :: r)) = none := by
+    rw [substAt_of_occ, scanRef_of_wf r hn (isPart_suffix hc)]; simp [hl]
+  have hnd : '$' ∉ n ++ [envSuffix] := by
+    have := hn.no_dollar hd hc
+    simp [envSuffix, this]
+  have h3 : n ++ envSuffix :: r = (n ++ [envSuffix]) ++ r := by simp
+  rw [expand_eq_spec, h1, specExpand_cut_dollar hd, h2, specExpand_occ_kept alnum env _ hsub, h3,
+    specExpand_no_dollar_prefix alnum env _ r hnd]
+  simp [refLit]
+
+/-- EVERY occurrence of `$ENV{` that does not begin a well-formed, terminated reference (empty
+name, illegal first character, illegal inner character, missing brace) stays as written, and the
+scan resumes right after the five characters. -/
+theorem C19_malformed_reference_kept (alnum : Char → Bool) (env : Env) (hd : alnum '$' = false)
+    (a t : Text) (hm : refAt alnum t = none) :
+    expand alnum env (a ++ envPrefix ++ t) =
+      .ok (specExpand alnum env a ++ envPrefix ++ specExpand alnum env t) := by
+  have h1 : a ++ envPrefix ++ t = a ++ '$' :: (['E', 'N', 'V', '{'] ++ t) := by simp [envPrefix]
+  have h2 : '$' :: (['E', 'N', 'V', '{'] ++ t) = envPrefix ++ t := by simp [envPrefix]
+  have hsub : substAt alnum env (envPrefix ++ t) = none := by
+    rw [substAt_of_occ, scanRef_eq_refAt, hm]
+  rw [expand_eq_spec, h1, specExpand_cut_dollar hd, h2, specExpand_occ_kept alnum env _ hsub,
+    List.append_assoc]
+
 /-! ### The environment: only the referenced variables matter -/
 
 /-- The expansion depends only on the variables the path references: two environments that agree
@@ -98,87 +173,160 @@ theorem C19_depends_only_on_referenced (alnum : Char → Bool) (env₁ env₂ : 
   rw [expand_eq_spec, expand_eq_spec, specExpand, specExpand,
     specGo_congr alnum env₁ env₂ path h path [] rfl 0]
 
+/-- `std::env::var` as the process sees it: on an environment block with unique names (what
+`setenv` maintains; `execve` would also accept duplicates) first-match `getenv` followed by the
+Unicode check — `osVar`, i.e. `if let Ok(v) = std::env::var(name)` — is the lookup the model uses. -/
+theorem C19_env_var_is_getenv (os : OsEnv) (hnd : (os.map (·.1)).Nodup) (n : Text) :
+    lookup (unicodeView os) n = (match osVar os n with | .ok v => some v | .error _ => none) :=
+  (varOk_eq_lookup os hnd n).symm
+
 /-- Bystanders are irrelevant, whatever they are: a variable `b` of the process environment —
 name and value arbitrary byte strings, valid Unicode or not — that no well-formed reference of the
 path names can be added or removed without changing the result, and the expansion does not panic
-in its presence (`std::env::var` is asked per reference; nothing enumerates the environment). -/
+in its presence (`std::env::var` is asked per reference; nothing enumerates the environment).
+With unique names (`hnd`) the variable reads of both sides are `getenv`'s answers. -/
 theorem C19_bystanders_irrelevant (alnum : Char → Bool) (os₁ os₂ : OsEnv) (b : Bytes × Bytes) (path : Text)
+    (hnd : ((os₁ ++ b :: os₂).map (·.1)).Nodup)
     (hb : ∀ a t n, path = a ++ (envPrefix ++ t) → refAt alnum t = some n → decodeUtf8 b.1 ≠ some n) :
     expandOs alnum (os₁ ++ b :: os₂) path = expandOs alnum (os₁ ++ os₂) path ∧
-    (expandOs alnum (os₁ ++ b :: os₂) path).isPanic = false := by
-  refine ⟨?_, by rw [expandOs, expand_eq_spec]; rfl⟩
+    (expandOs alnum (os₁ ++ b :: os₂) path).isPanic = false ∧
+    ∀ n, lookup (unicodeView (os₁ ++ b :: os₂)) n =
+      (match osVar (os₁ ++ b :: os₂) n with | .ok v => some v | .error _ => none) := by
+  refine ⟨?_, by rw [expandOs, expand_eq_spec]; rfl, fun n => C19_env_var_is_getenv _ hnd n⟩
   apply C19_depends_only_on_referenced
   intro a t n hp hr
   exact lookup_unicodeView_remove os₁ os₂ b n (hb a t n hp hr)
 
-/-- A variable whose value (or name) is not valid Unicode is, for the expansion, an unset variable:
-it is invisible to `std::env::var`, a reference to it stays as written. -/
+/-- READING DECISION made by the code (`std::env::var`, not `var_os`), adopted by the model and the
+specification and listed under `assumptions`: a variable whose value (or name) is not valid
+Unicode counts as NOT SET — `std::env::var` answers `Err(NotUnicode)` for it (second clause), the
+expansion is the one of the block without it (first clause): a reference to it stays as written. -/
 theorem C19_not_unicode_is_unset (alnum : Char → Bool) (os₁ os₂ : OsEnv) (b : Bytes × Bytes) (path : Text)
+    (hnd : ((os₁ ++ b :: os₂).map (·.1)).Nodup)
     (hb : decodeUtf8 b.1 = none ∨ decodeUtf8 b.2 = none) :
-    expandOs alnum (os₁ ++ b :: os₂) path = expandOs alnum (os₁ ++ os₂) path := by
+    expandOs alnum (os₁ ++ b :: os₂) path = expandOs alnum (os₁ ++ os₂) path ∧
+    ∀ n, b.1 = utf8 n → osVar (os₁ ++ b :: os₂) n = .error .notUnicode := by
   have hsplit : os₁ ++ b :: os₂ = os₁ ++ ([b] ++ os₂) := by simp
   have hview : unicodeView [b] = [] := by
     rcases hb with h | h
     · simp [unicodeView, h]
     · cases h1 : decodeUtf8 b.1 <;> simp [unicodeView, h, h1]
-  simp only [expandOs]
-  rw [hsplit, unicodeView_append, unicodeView_append, hview, List.nil_append, ← unicodeView_append]
+  refine ⟨?_, ?_⟩
+  · simp only [expandOs]
+    rw [hsplit, unicodeView_append, unicodeView_append, hview, List.nil_append, ← unicodeView_append]
+  · intro n hn
+    have hval : decodeUtf8 b.2 = none := by
+      rcases hb with h | h
+      · rw [hn, decodeUtf8_complete] at h; exact absurd h (by simp)
+      · exact h
+    have hbmem : b ∈ os₁ ++ b :: os₂ := by simp
+    cases hf : (os₁ ++ b :: os₂).find? (fun e => e.1 == utf8 n) with
+    | none =>
+      have := List.find?_eq_none.1 hf b hbmem
+      simp [hn] at this
+    | some e =>
+      have hpe := List.find?_some hf
+      have hme := List.mem_of_find?_eq_some hf
+      have hen : e.1 = b.1 := by rw [hn]; simpa using hpe
+      have heq : e = b := nodup_map_inj (·.1) _ hnd e hme b hbmem hen
+      simp only [osVar, hf, heq, hval]
 
-/-! ### Call sites -/
+/-! ### Call sites: "create their files at the expanded location"
 
-/-- The rolling appender keeps to one location for its whole life: in every history of
-appends (`rolls k` = the policy rolls at the k-th append), the directory created and the file
-opened in `build`, the file handed to the roller at every roll and the file reopened after every
-roll are all the ONE location computed in `build` — the given text expanded once. -/
-theorem C19_rolling_location_stable (alnum : Char → Bool) (env : Env) (given : Text) (rolls : List Bool) :
-    ∃ trace, rollingTrace alnum env given rolls = .ok trace ∧
-      ∀ u ∈ trace, u.path = specLocation alnum env .rollingBuilder given := by
-  have hb : rollingBuildState alnum env given = .ok { path := specExpand alnum env given } := by
-    simp [rollingBuildState, rollingBuild, expand_eq_spec]
-  refine ⟨_, by simp only [rollingTrace, hb]; rfl, ?_⟩
-  have key : ∀ (rs : List Bool) (w : Bool), ∀ u ∈ appendTrace { path := specExpand alnum env given } w rs,
-      u.path = specExpand alnum env given := by
-    intro rs
-    induction rs with
-    | nil => intro w u hu; simp [appendTrace] at hu
-    | cons r rs ih =>
-      intro w u hu
-      simp only [appendTrace, List.mem_append] at hu
-      rcases hu with (hu | hu) | hu
-      · split at hu
-        · simp at hu
-        · simp only [List.mem_singleton] at hu; subst hu; rfl
-      · split at hu
-        · simp only [List.mem_singleton] at hu; subst hu; rfl
-        · simp at hu
-      · exact ih _ u hu
-  intro u hu
-  simp only [List.mem_cons] at hu
-  rcases hu with rfl | rfl | hu
-  · rfl
-  · rfl
-  · exact key rolls true u hu
+The model of the call sites (EnvExpand/CallSites.lean) follows the Rust code variable by variable
+on a file system with directories; the specification (EnvExpand/Spec.lean) mentions one location,
+`loc`. Each theorem says: for EVERY file system state and EVERY outcome (errors included) the
+model does exactly what the specification does at `loc = specExpand given` — the given text
+expanded once. That the real `build`/`append`/`rotate` behave as the model says is what the
+correspondence check observes (files, their content, directories, the descriptor held open). -/
 
-/-- Every call site — `FileAppender::builder().build`, `RollingFileAppender::builder().build`, the
-two configuration deserializers, and `rotate()` for every slot of a roller built directly or from
-a configuration — puts its file at the text it was given (for the roller: the pattern with the
-index filled in) expanded exactly ONCE; in particular a configured path lands where the same text
-given to the builder lands. (On the model of the call sites in EnvExpand/Model.lean; that the
-real deserializers hand the configured text to `build` unexpanded is what the `file-cfg`,
-`rolling-cfg`, `roller-cfg` cases of the correspondence check observe.) For the rolling appender
-the location is computed once, in `build`, and every later open, roll and reopen uses it
-(last clause; `C19_rolling_location_stable`). -/
-theorem C19_call_sites_expand_once (alnum : Char → Bool) (env : Env) (site : CallSite) (given : Text) :
-    location alnum env site given = .ok (specLocation alnum env site given) ∧
-    location alnum env .fileConfig given = location alnum env .fileBuilder given ∧
-    location alnum env .rollingConfig given = location alnum env .rollingBuilder given ∧
-    (∀ i, location alnum env (.rollerConfig i) given = location alnum env (.rollerBuilder i) given) ∧
-    ∀ rolls, ∃ trace, rollingTrace alnum env given rolls = .ok trace ∧
-      ∀ u ∈ trace, u.path = specLocation alnum env .rollingBuilder given := by
-  refine ⟨?_, rfl, rfl, fun _ => rfl, C19_rolling_location_stable alnum env given⟩
-  cases site <;>
-    simp [location, specLocation, CallSite.submitted, fileBuild, fileDeserialize, rollingBuild,
-      rollingDeserialize, rollerSlot, rollerBuild, rollerDeserialize, expand_eq_spec]
+/-- File appender, `FileAppender::builder().build(given)` for a path that is valid Unicode: the
+parent directories created, the file created and the descriptor all records are written to are
+those of `specExpand given`; the stored `path` is that text too. The configuration deserializer
+hands the configured scalar to `build` as written, so a configured path lands where the same text
+given to the builder lands. -/
+theorem C19_file_appender_at_expanded_location (alnum : Char → Bool) (env : Env) (cwd : Comps)
+    (given : Text) (fs : Fs) :
+    fileBuildFs alnum env cwd (utf8 given) fs =
+      bindO (specFileBuild cwd (specExpand alnum env given) fs) (fun (fd, fs') =>
+        .ok ({ path := specExpand alnum env given, file := fd }, fs')) ∧
+    fileDeserializeFs alnum env cwd given fs = fileBuildFs alnum env cwd (utf8 given) fs ∧
+    ∀ a data fs', fileAppendFs a data fs' = fs'.appendTo a.file data :=
+  ⟨fileBuildFs_eq alnum env cwd given fs, rfl, fun _ _ _ => rfl⟩
+
+/-- … spelled out for a plain relative location `d₁/…/dₖ/name` (no `.`/`..`, no trailing `/`) in
+an empty working directory: the build succeeds, creates exactly the directories `d₁`, `d₁/d₂`, …,
+`d₁/…/dₖ` and exactly one (empty) file, `d₁/…/dₖ/name`, and holds that file open. -/
+theorem C19_file_appender_fresh_directory (alnum : Char → Bool) (env : Env) (given : Text)
+    (ds : List Text) (name : Text)
+    (hr : rpath (specExpand alnum env given) = { abs := false, comps := ds ++ [name], trailing := false })
+    (hdd : dotdot ∉ ds ++ [name]) :
+    fileBuildFs alnum env [] (utf8 given) Fs.empty =
+      .ok ({ path := specExpand alnum env given, file := ds ++ [name] },
+           { files := [(ds ++ [name], [])], dirs := dirChain [] ds }) := by
+  rw [fileBuildFs_eq, specFileBuild_fresh _ ds name hr hdd]; rfl
+
+/-- The path argument is an `OsStr`: the code converts it with `to_string_lossy` BEFORE expanding.
+For bytes that are not valid UTF-8 the location is the expansion of the lossy text (ill-formed
+sequences replaced by U+FFFD) — "byte-for-byte unchanged" holds for valid Unicode only, where the
+conversion is the identity. -/
+theorem C19_path_argument_lossy (alnum : Char → Bool) (env : Env) (cwd : Comps) (given : Bytes) (fs : Fs) :
+    fileBuildFs alnum env cwd given fs =
+      bindO (specFileBuild cwd (specExpand alnum env (toStringLossy given)) fs) (fun (fd, fs') =>
+        .ok ({ path := specExpand alnum env (toStringLossy given), file := fd }, fs')) ∧
+    ∀ t, toStringLossy (utf8 t) = t := by
+  refine ⟨?_, toStringLossy_utf8⟩
+  simp only [fileBuildFs, expandAt_eq, bindO_ok, specFileBuild, bindO_assoc]
+
+/-- Rolling appender: `build` creates the directory and opens the file of `specExpand given`, and in
+EVERY history of appends — any records, any trigger decisions, post-process (size trigger) or
+pre-process (time trigger) policy, any roller — every reopen, every write and every file handed
+to the roller is at that one location: the stored `path` never differs from it. -/
+theorem C19_rolling_appender_at_expanded_location (alnum : Char → Bool) (env : Env) (cwd : Comps)
+    (given : Text) (pre : Bool) (roller : RollerFn) (ops : List AppendOp) (fs : Fs) :
+    rollingBuildFs alnum env cwd (utf8 given) fs =
+      bindO (specRollingBuild cwd (specExpand alnum env given) fs) (fun (w, fs') =>
+        .ok ({ path := specExpand alnum env given, writer := w }, fs')) ∧
+    rollingDeserializeFs alnum env cwd given fs = rollingBuildFs alnum env cwd (utf8 given) fs ∧
+    ∀ w fs', rollingHistoryFs cwd pre roller { path := specExpand alnum env given, writer := w } ops fs' =
+      bindO (specRollingHistory cwd pre roller (specExpand alnum env given) w ops fs') (fun (w', fs'') =>
+        .ok ({ path := specExpand alnum env given, writer := w' }, fs'')) :=
+  ⟨rollingBuildFs_eq alnum env cwd given fs, rfl,
+   fun w fs' => rollingHistoryFs_eq cwd pre roller ops { path := specExpand alnum env given, writer := w } fs'⟩
+
+/-- Fixed-window roller: one `roll` shifts and fills the slots `specSlot pattern i` — the pattern
+with the index filled in (the specification's own `fillIndex`), expanded once — creating the
+directory of slot `base` and of every destination slot that lies elsewhere; nothing else is
+touched. (`rotate()` recomputes each name from the pattern, up to three times per slot.) -/
+theorem C19_roller_archives_at_expanded_locations (alnum : Char → Bool) (env : Env) (cwd : Comps)
+    (pattern : Text) (base count : Nat) :
+    rollFs alnum env cwd pattern base count = specRoll cwd (specSlot alnum env pattern) base count ∧
+    ∀ i, slotName alnum env pattern i = .ok (specExpand alnum env (fillIndex (decimal i) pattern)) :=
+  ⟨rollFs_eq alnum env cwd pattern base count, fun i => slotName_eq alnum env pattern i⟩
+
+/-- The roller's builder: a pattern without `{}` and an index range beyond `u32` are REJECTED (no
+roller, hence no location); otherwise the pattern is stored as written — unexpanded — whether it
+comes from the builder API or from a configuration. -/
+theorem C19_roller_build (pattern : Text) (base count : Nat) :
+    (hasInfix ['{', '}'] pattern = false → ∃ w, rollerBuild pattern base count = .err (.build w)) ∧
+    (hasInfix ['{', '}'] pattern = true → count > 0 → base + (count - 1) > U32_MAX →
+      ∃ w, rollerBuild pattern base count = .err (.build w)) ∧
+    (hasInfix ['{', '}'] pattern = true → (count = 0 ∨ base + (count - 1) ≤ U32_MAX) →
+      rollerBuild pattern base count = .ok pattern) ∧
+    rollerDeserialize pattern base count = rollerBuild pattern base count := by
+  refine ⟨?_, ?_, ?_, rfl⟩
+  · intro h; exact ⟨"pattern does not contain `{}`", by simp [rollerBuild, h]⟩
+  · intro h hc ho
+    refine ⟨"base + count - 1 exceeds u32::MAX", ?_⟩
+    simp only [rollerBuild, h, Bool.not_true, Bool.false_eq_true, if_false]
+    rw [if_pos]
+    simp [hc, ho]
+  · intro h hc
+    simp only [rollerBuild, h, Bool.not_true, Bool.false_eq_true, if_false]
+    rw [if_neg]
+    rcases hc with hc | hc
+    · simp [hc]
+    · simp; intro _; omega
 
 /-- Why "once" matters: expansion is not idempotent. `p$ENV{$ENV{W}}q` with W=`T`, T=`r`: one
 application gives `p$ENV{T}q` (the outer reference is malformed and stays), a second application
@@ -186,13 +334,13 @@ would turn that into `prq`. (Evaluation on one input.) -/
 theorem C19_expand_not_idempotent :
     specExpand asciiAlnum [(['W'], ['T']), (['T'], ['r'])] ['p', '$', 'E', 'N', 'V', '{', '$', 'E', 'N', 'V', '{', 'W', '}', '}', 'q'] = ['p', '$', 'E', 'N', 'V', '{', 'T', '}', 'q'] ∧
     specExpand asciiAlnum [(['W'], ['T']), (['T'], ['r'])] (specExpand asciiAlnum [(['W'], ['T']), (['T'], ['r'])] ['p', '$', 'E', 'N', 'V', '{', '$', 'E', 'N', 'V', '{', 'W', '}', '}', 'q']) = ['p', 'r', 'q'] ∧
-    location asciiAlnum [(['W'], ['T']), (['T'], ['r'])] .fileConfig ['p', '$', 'E', 'N', 'V', '{', '$', 'E', 'N', 'V', '{', 'W', '}', '}', 'q'] = .ok ['p', '$', 'E', 'N', 'V', '{', 'T', '}', 'q'] := by
+    expand asciiAlnum [(['W'], ['T']), (['T'], ['r'])] ['p', '$', 'E', 'N', 'V', '{', '$', 'E', 'N', 'V', '{', 'W', '}', '}', 'q'] = .ok ['p', '$', 'E', 'N', 'V', '{', 'T', '}', 'q'] := by
   decide
 
 /-! ### Historical: the code before the fix of finding F7 (`expand_unfixed`) -/
 
 /-- The historical code never panicked either. -/
-theorem C19_unfixed_never_panics (alnum : Char → Bool) (env : Env) (path : Text) :
+theorem Hist_C19_unfixed_never_panics (alnum : Char → Bool) (env : Env) (path : Text) :
     (expand_unfixed alnum env path).isPanic = false := by
   rw [expand_unfixed_eq_chars]; rfl
 
@@ -201,7 +349,7 @@ theorem C19_unfixed_never_panics (alnum : Char → Bool) (env : Env) (path : Tex
 reference to a set variable (so no substituted value, glued to its neighbouring literal text,
 spells a reference that a later replace-all hits). Values free of `$` as in the property's
 quantifier; `$` and `}` not alphanumeric. -/
-theorem C19_unfixed_eq_spec_partial (alnum : Char → Bool) (env : Env) (path : Text)
+theorem Hist_C19_unfixed_eq_spec_partial (alnum : Char → Bool) (env : Env) (path : Text)
     (hd : alnum '$' = false) (hc : alnum '}' = false)
     (hv : ∀ e ∈ env, '$' ∉ e.2)
     (hj : junctionFree alnum env path = true) :
@@ -210,25 +358,25 @@ theorem C19_unfixed_eq_spec_partial (alnum : Char → Bool) (env : Env) (path : 
   exact congrArg _ (expandChars_eq_spec hd hc (fun n v h => hv (n, v) (lookup_mem h)) path hj)
 
 /-- … hence, on those paths, old and new code agree (the fix changes nothing there). -/
-theorem C19_unfixed_eq_expand_partial (alnum : Char → Bool) (env : Env) (path : Text)
+theorem Hist_C19_unfixed_eq_expand_partial (alnum : Char → Bool) (env : Env) (path : Text)
     (hd : alnum '$' = false) (hc : alnum '}' = false)
     (hv : ∀ e ∈ env, '$' ∉ e.2)
     (hj : junctionFree alnum env path = true) :
     expand_unfixed alnum env path = expand alnum env path := by
-  rw [C19_unfixed_eq_spec_partial alnum env path hd hc hv hj, expand_eq_spec]
+  rw [Hist_C19_unfixed_eq_spec_partial alnum env path hd hc hv hj, expand_eq_spec]
 
 /-- The ordinary use: if every `$` of the path starts a well-formed reference to a set variable,
 the historical code equalled the single pass. -/
-theorem C19_unfixed_eq_spec_no_stray_dollar (alnum : Char → Bool) (env : Env) (path : Text)
+theorem Hist_C19_unfixed_eq_spec_no_stray_dollar (alnum : Char → Bool) (env : Env) (path : Text)
     (hd : alnum '$' = false) (hc : alnum '}' = false)
     (hv : ∀ e ∈ env, '$' ∉ e.2)
     (h : ∀ s ∈ parse alnum env path, s ≠ Seg.chr '$') :
     expand_unfixed alnum env path = .ok (specExpand alnum env path) :=
-  C19_unfixed_eq_spec_partial alnum env path hd hc hv
+  Hist_C19_unfixed_eq_spec_partial alnum env path hd hc hv
     (junctionFreeSegs_of_no_dollar alnum env _ h)
 
 /-- The unrestricted statement about the historical code (values free of `$`). -/
-def C19_unfixed_eq_spec_statement : Prop :=
+def Hist_C19_unfixed_eq_spec_statement : Prop :=
   ∀ (alnum : Char → Bool) (env : Env) (path : Text),
     alnum '$' = false → alnum '}' = false → (∀ e ∈ env, '$' ∉ e.2) →
     expand_unfixed alnum env path = .ok (specExpand alnum env path)
@@ -236,7 +384,7 @@ def C19_unfixed_eq_spec_statement : Prop :=
 /-- F7: the unrestricted statement was FALSE of the historical code. Witness
 `$$ENV{A}NV{B}$ENV{B}` with A=`E`, B=`v`: that code yields `vv`, the single pass `$ENV{B}v`.
 (Evaluation of the model on one input; the same input is in the corpus of the correspondence check.) -/
-theorem C19_unfixed_eq_spec_false : ¬ C19_unfixed_eq_spec_statement := by
+theorem Hist_C19_unfixed_eq_spec_false : ¬ Hist_C19_unfixed_eq_spec_statement := by
   intro h
   have := h asciiAlnum [(['A'], ['E']), (['B'], ['v'])] ['$', '$', 'E', 'N', 'V', '{', 'A', '}', 'N', 'V', '{', 'B', '}', '$', 'E', 'N', 'V', '{', 'B', '}']
     (by decide) (by decide) (by decide)
@@ -244,7 +392,7 @@ theorem C19_unfixed_eq_spec_false : ¬ C19_unfixed_eq_spec_statement := by
   decide
 
 /-- the F7 witness: historical code, statement, hypothesis of the partial theorem, and the code -/
-theorem C19_unfixed_witness_values :
+theorem Hist_C19_unfixed_witness_values :
     expand_unfixed asciiAlnum [(['A'], ['E']), (['B'], ['v'])] ['$', '$', 'E', 'N', 'V', '{', 'A', '}', 'N', 'V', '{', 'B', '}', '$', 'E', 'N', 'V', '{', 'B', '}'] = .ok ['v', 'v'] ∧
     specExpand asciiAlnum [(['A'], ['E']), (['B'], ['v'])] ['$', '$', 'E', 'N', 'V', '{', 'A', '}', 'N', 'V', '{', 'B', '}', '$', 'E', 'N', 'V', '{', 'B', '}'] = ['$', 'E', 'N', 'V', '{', 'B', '}', 'v'] ∧
     junctionFree asciiAlnum [(['A'], ['E']), (['B'], ['v'])] ['$', '$', 'E', 'N', 'V', '{', 'A', '}', 'N', 'V', '{', 'B', '}', '$', 'E', 'N', 'V', '{', 'B', '}'] = false ∧
@@ -282,8 +430,16 @@ example :
 
 /-- the roller: the index is filled in first, so `$ENV{A{}}` names `A0`, `A1`, … -/
 example :
-    location asciiAlnum [(['A', '0'], ['z']), (['A', '1'], ['o'])] (.rollerConfig 1) ['p', '$', 'E', 'N', 'V', '{', 'A', '{', '}', '}', '.', '{', '}'] =
-      .ok ['p', 'o', '.', '1'] := by
+    slotName asciiAlnum [(['A', '0'], ['z']), (['A', '1'], ['o'])] ['p', '$', 'E', 'N', 'V', '{', 'A', '{', '}', '}', '.', '{', '}'] 1 = .ok ['p', 'o', '.', '1'] ∧
+    rollerBuild ['p', '$', 'E', 'N', 'V', '{', 'A', '{', '}', '}', '.', '{', '}'] 0 2 = .ok ['p', '$', 'E', 'N', 'V', '{', 'A', '{', '}', '}', '.', '{', '}'] ∧
+    rollerBuild ['a', '.', 'l', 'o', 'g'] 0 2 = .err (.build "pattern does not contain `{}`") := by
+  decide
+
+/-- a file appender whose whole path is one reference with a directory in the value -/
+example :
+    fileBuildFs asciiAlnum [(['A'], ['d', '/', 'e', '/', 'x'])] [] (utf8 ['$', 'E', 'N', 'V', '{', 'A', '}']) Fs.empty =
+      .ok ({ path := ['d', '/', 'e', '/', 'x'], file := [['d'], ['e'], ['x']] },
+           { files := [([['d'], ['e'], ['x']], [])], dirs := [[['d']], [['d'], ['e']]] }) := by
   decide
 
 end Log4rs.EnvExpand
